@@ -31,6 +31,19 @@ class ShamirStream(Stream):
                 return {"what": "Split used the x-coordinate 0 (that share is the secret itself)", "signature": "c20-x-zero"}
             if len(set(tags)) != len(tags):
                 return {"what": "Split used an x-coordinate twice", "signature": "c20-x-duplicate"}
+        if op.startswith("combine\t") and impl.startswith("ok:"):
+            # "combining rejects duplicate, short or unequal-length shares": an accepted combination has >= 2 parts of
+            # one length >= 2 with pairwise distinct x-coordinates (the last byte)
+            parts = [bytes.fromhex(x) if x != "-" else b"" for x in op.split("\t")[1].split(",")] if len(op.split("\t")) > 1 and op.split("\t")[1] else []
+            if len(parts) < 2:
+                return {"what": "Combine accepted fewer than two parts", "signature": "c20-combine-accepts-malformed"}
+            if any(len(q) != len(parts[0]) for q in parts):
+                return {"what": "Combine accepted parts of unequal length (%s)" % ",".join(str(len(q)) for q in parts),
+                        "signature": "c20-combine-accepts-malformed"}
+            if len(parts[0]) < 2:
+                return {"what": "Combine accepted parts shorter than two bytes", "signature": "c20-combine-accepts-malformed"}
+            if len({q[-1] for q in parts}) != len(parts):
+                return {"what": "Combine accepted two parts with the same x-coordinate", "signature": "c20-combine-accepts-malformed"}
         if impl == "panic" and not (op.startswith("div\t") and op.endswith("\t0")) and not (op.startswith("eval\t") and op.endswith("\t0")):
             return "panic outside the documented x=0 / divide-by-zero guards"
         return None
